@@ -66,6 +66,23 @@ CHECKS.update({
             "the abstract Supported/Honoured predicates; quantized Linear/Conv2d modules are instantiated over a stratified set of sizes and run.",
             "Supported(cfg) is written from the property statement, independently of the as-built checks. Rank 0 tensors, zero / negative group sizes are outside the statement's quantifier.",
             "DESIGN.md 3.3, 5/C14"),
+    "C05": ("TensorOps.tla, Trace_TensorOps.tla, Exact.tla",
+            "TLC model check of the dispatch tables + execution of TLC-generated operation programs on real tensors + TLC trace validation of every step",
+            "TensorOps.tla transcribes both aten dispatch tables and the function table at the level stays-quantized / falls-back / raises with the re-wrapped "
+            "metadata; TLC checks WellFormed and NoSpuriousRaise over all programs to depth 3-4, shows that each recorded deviation violates them, and generates all "
+            "programs of depth 1-2 plus simulated programs of depth up to 7 (40 operations x operand kinds: per-tensor / per-axis int8 and float8, packed int2/int4, plain, "
+            "equal / different scales, other qtype, three inputs). Each program runs on real quantized tensors and, step by step, on the dequantized operands; TLC validates "
+            "every step: no spurious raise, and value equivalence in exact arithmetic by operation class (exact / float rounding / one step of the output grid).",
+            "Deq(result) is quanto's dequantize() (verified by C01/C02). Tolerances per DESIGN 7.2. mm/bmm/linear belong to C07. After a step admitted only as a listed known "
+            "finding the rest of that program is skipped.",
+            "DESIGN.md 3.5, 5/C05, 7.2, Appendix B"),
+    "C06": ("TensorOps.tla, Trace_TensorOps.tla",
+            "TLC model check of the re-wrapping metadata + TLC trace validation of the projection of every tensor produced by executed programs",
+            "Same programs as C05; the verdict clauses are WellFormed (reported shape/dtype = those of the dequantized value and of the float twin, one code per element, "
+            "scale laid out along the declared axis, storage type = payload dtype) evaluated after every step, MovesKeepCodes and DtypeMoveOnlyScale (codes, qtype, axis "
+            "unchanged by clone/detach/contiguous/to; only the scale changes dtype). Tensors produced by freeze and deserialisation are projected with the same predicate in C09/C10.",
+            "Strides are recorded, not judged. Grouped scale layouts of packed tensors are judged by C02/C03.",
+            "DESIGN.md 3.5, 5/C06"),
 })
 
 NOT_YET = {}
